@@ -116,7 +116,10 @@ func genFsEnv(r *hx.Rand, failEvery int, insane bool) *fsEnv {
 var servers = []string{"dav", "cal", "card", "principal"}
 
 func withEnv(r *hx.Rand, server string, req *rawReq, failEvery int, insane bool) *kase {
-	k := &kase{server: server, req: req}
+	// the request may be shared by several cases: every case gets its own copy
+	q := *req
+	q.normalise()
+	k := &kase{server: server, req: &q}
 	switch server {
 	case "dav":
 		k.fs = genFsEnv(r, failEvery, insane)
@@ -174,9 +177,11 @@ func main() {
 	defer sink.Close()
 
 	if *replay != "" {
+		w := newWire()
+		defer w.srv.Close()
 		for _, l := range hx.ReadLines(*replay) {
 			items := hx.MustParse(l)
-			sink.Put(parseKase(items[0]).line())
+			sink.Put(parseKase(items[0]).line(w))
 		}
 		return
 	}
@@ -195,8 +200,10 @@ func main() {
 		wg.Add(1)
 		go func() {
 			defer wg.Done()
+			wr := newWire()
+			defer wr.srv.Close()
 			for k := range work {
-				sink.Put(k.line())
+				sink.Put(k.line(wr))
 			}
 		}()
 	}
@@ -206,6 +213,7 @@ func main() {
 	// ---- 1. the grid: every method x every hierarchy level, header values from valid,
 	// boundary and invalid sets, a few bodies, against a healthy and an unhealthy double
 	envRounds := 2
+	gridN := 0
 	if thorough {
 		envRounds = 6
 	}
@@ -261,6 +269,25 @@ func main() {
 					q.ctype, q.body = "application/xml", []byte(xmlBodies[4])
 					variants = append(variants, &q)
 				}
+				// the way the body is delivered: every form for MKCOL, one rotating form
+				// for the other methods that read a body
+				switch strings.ToUpper(m) {
+				case "MKCOL":
+					for _, v := range variants {
+						for _, d := range deliveries[1:] {
+							q := *v
+							q.delivery = d
+							work <- withEnv(rng, srv, &q, 1<<30, false)
+						}
+					}
+				case "PROPFIND", "PUT", "PROPPATCH", "REPORT":
+					for _, v := range variants {
+						q := *v
+						gridN++
+						q.delivery = deliveries[1+gridN%(len(deliveries)-1)]
+						work <- withEnv(rng, srv, &q, 1<<30, false)
+					}
+				}
 				for _, v := range variants {
 					for round := 0; round < envRounds; round++ {
 						switch {
@@ -303,6 +330,9 @@ func main() {
 		}
 		if rng.Chance(1, 10) {
 			req.depth = rng.Pick(depths)
+		}
+		if rng.Chance(3, 5) {
+			req.delivery = deliveries[1+rng.Intn(len(deliveries)-1)]
 		}
 		fail := 12
 		work <- withEnv(rng, srv, req, fail, rng.Chance(1, 10))
@@ -354,6 +384,9 @@ func main() {
 			dest: rng.Pick(dests), ctype: rng.Pick(ctypes), body: body}
 		if rng.Chance(1, 3) {
 			req.body = []byte(rng.Pick(objBodies))
+		}
+		if rng.Chance(1, 2) {
+			req.delivery = deliveries[1+rng.Intn(len(deliveries)-1)]
 		}
 		work <- withEnv(rng, rng.Pick(servers), req, 6, rng.Chance(1, 5))
 	}
